@@ -66,6 +66,9 @@ type qcase struct {
 	Start int64    `json:"start,omitempty"` // kind "long": counter the store starts from
 	Gap   int      `json:"gap,omitempty"`   // kind "long": largest gap between two counters
 	Stall int      `json:"stall_ms,omitempty"`
+	// Store selects what stands behind the `adapter` actions of a scripted history: "" = the in-memory re-statement of
+	// the guard, "redis" = a real *uuid.RedisStore on a scripted loopback RESP server (redisleg.go)
+	Store string `json:"store,omitempty"`
 }
 
 // ---- the in-memory store ------------------------------------------------------------------------
@@ -120,7 +123,7 @@ func (a *adapter) incr(g int) (int64, error) {
 
 // genStore is the Storage value handed to one generator: it records what that generator was told.
 type genStore struct {
-	ad      *adapter
+	ad      adIface
 	g       int // index of the generator (concurrent leg)
 	mu      sync.Mutex
 	leases  []int64
@@ -147,7 +150,7 @@ func (s *genStore) Close() error { return nil }
 
 func errKind(err error) string {
 	switch {
-	case errors.Is(err, errStoreDown) || injected(err):
+	case errors.Is(err, errStoreDown) || injected(err) || redisInjected(err):
 		return "err:store"
 	case errors.Is(err, uuid.ErrIDOutOfRange):
 		return "err:range"
@@ -235,7 +238,7 @@ func (o *oracle) final() {
 
 type world struct {
 	be   *backend
-	ads  []*adapter
+	ads  []adIface
 	gens []*uuid.SeqIDGen
 	dead []bool
 	o    *oracle
@@ -278,6 +281,11 @@ func runCase(c qcase, rec *hxlib.Run) (res result) {
 		}
 	}
 	moved := map[int64]bool{}
+	defer func() {
+		for _, ad := range w.ads {
+			ad.close()
+		}
+	}()
 	for _, a := range c.Acts {
 		fmt.Fprintf(h, "%s,%d,%d,%d,%s,%d;", a.Op, a.G, a.Step, a.Ad, a.Raw, a.N)
 		// the hypotheses of the property, decided on the history itself
@@ -303,7 +311,17 @@ func runCase(c qcase, rec *hxlib.Run) (res result) {
 		}
 		switch a.Op {
 		case "adapter":
-			w.ads = append(w.ads, &adapter{be: w.be})
+			if c.Store == "redis" {
+				ra, why := newRedisAdapter(w.be)
+				if ra == nil {
+					w.o.add("harness:redis-store", "cannot build a RedisStore on the scripted server: %s", why)
+					w.ads = append(w.ads, &adapter{be: w.be})
+				} else {
+					w.ads = append(w.ads, ra)
+				}
+			} else {
+				w.ads = append(w.ads, &adapter{be: w.be})
+			}
 			op("adapter", "ok")
 		case "create":
 			if a.Ad < 0 || a.Ad >= len(w.ads) {
@@ -446,13 +464,13 @@ func shrink(c qcase, key string) qcase {
 		return c
 	}
 	keep := hxlib.DDMin(len(c.Acts), func(keep []int) bool {
-		cc := qcase{Kind: c.Kind, Excluded: c.Excluded}
+		cc := qcase{Kind: c.Kind, Excluded: c.Excluded, Store: c.Store}
 		for _, i := range keep {
 			cc.Acts = append(cc.Acts, c.Acts[i])
 		}
 		return has(cc)
 	})
-	out := qcase{Kind: c.Kind, Excluded: c.Excluded}
+	out := qcase{Kind: c.Kind, Excluded: c.Excluded, Store: c.Store}
 	for _, i := range keep {
 		out.Acts = append(out.Acts, c.Acts[i])
 	}
@@ -1042,6 +1060,7 @@ func main() {
 	}
 	apiCase(r)
 	diversityLegs(r)
+	redisLegs(r)
 	n := r.Scale(3000, 60000)
 	for k := 0; k < n; k++ {
 		c := randomHistory(r, r.R.Pick(12, 40, 120))
